@@ -742,11 +742,12 @@ def helper_paths(run, g, n, depth=0):
                         f2.add((ct, p2))
                 if f2:
                     groups.append((tn, pol, frozenset(f2)))
-            these.append((lits, groups))
+            eff = {k: v for k, v in getattr(l, 'assigns', {}).items() if k.startswith('self.')}
+            these.append((lits, groups, eff))
         if combos is None:
             combos = these
         else:
-            combos = [(a[0] | b[0], a[1] + b[1]) for a in combos for b in these][:64]
+            combos = [(a[0] | b[0], a[1] + b[1], dict(a[2], **b[2])) for a in combos for b in these][:64]
     return combos or []
 
 
@@ -772,6 +773,10 @@ def path_conditions(run, g, rd, start, target, limit=5000, through_exc=False, pr
         asg = dict(env.get('#assigns', {}))
         if n.kind == 'stmt' and isinstance(n.ast, ast.Assign) and len(n.ast.targets) == 1 and isinstance(n.ast.targets[0], ast.Name):
             asg[n.ast.targets[0].id] = (n.ast.value, n)
+        elif n.kind == 'stmt' and isinstance(n.ast, ast.Assign) and len(n.ast.targets) == 1 \
+                and isinstance(n.ast.targets[0], ast.Attribute) and isinstance(n.ast.targets[0].value, ast.Name) \
+                and n.ast.targets[0].value.id == 'self':
+            asg[U(n.ast.targets[0])] = (n.ast.value, n)          # field stores, keyed 'self.<field>'
         else:
             for nm_ in _defs(n):
                 asg.pop(nm_, None)
@@ -805,10 +810,14 @@ def path_conditions(run, g, rd, start, target, limit=5000, through_exc=False, pr
                     post = helper_paths(run, g, n, _depth)
                 if post:
                     # splice each normal path of the helper(s) into this path
-                    for (hl, hg) in post:
+                    for (hl, hg, heff) in post:
                         if prune and any((t, not p) in lits for (t, p) in hl):
                             continue
-                        rec(m, seen | {m}, lits | hl, groups + hg, env2)
+                        env3 = env2
+                        if heff:
+                            env3 = dict(env2)
+                            env3['#assigns'] = dict(env2.get('#assigns', {}), **heff)
+                        rec(m, seen | {m}, lits | hl, groups + hg, env3)
                     continue
             rec(m, seen | {m}, lits | add, grp, env2)
     rec(start, {start}, set(), [], {})
@@ -1280,14 +1289,18 @@ def effective_write_sites(run, session_cls='session.WebsocketSession', depth=2):
 
 
 # ------------------------------------------------------------------------------ counting through private helpers
+SPLICE_ALSO = set()      # method names spliced into path conditions although they are public (set by a rule, temporarily)
+
+
 def _helper_targets(run, g, c):
     """Private same-class, non-generator helper methods a call may resolve to (called on self / cls)."""
     if not (isinstance(c.func, ast.Attribute) and U(c.func.value) in ('self', 'cls')):
         return []
     out = []
     for t in run.types.call_targets(c, g.ctx):
-        if t.kind == 'func' and not t.func.is_generator and t.func.cls is not None and t.func.name.startswith('_') \
-                and not t.func.name.startswith('__') and g.ctx.func.cls is not None \
+        if t.kind == 'func' and not t.func.is_generator and t.func.cls is not None and (
+                (t.func.name.startswith('_') and not t.func.name.startswith('__')) or t.func.name in SPLICE_ALSO) \
+                and g.ctx.func.cls is not None \
                 and run.prog.is_subclass(g.ctx.recv or g.ctx.func.cls.qual, t.func.cls.qual):
             out.append(t)
     return out
@@ -1985,3 +1998,83 @@ def pfold(R, ctx, e):
         return U(_FoldProps(R, ctx).visit(copy.deepcopy(e)))
     except Exception:
         return U(e)
+
+
+def path_consistent(l, truth):
+    """Can path condition l hold for the situation described by ``truth``?  ``truth`` is a dict atom text -> bool or a
+    function text -> True / False / None (unknown).  A group one of whose forms can be evaluated (directly, or as an
+    and(...)/or(...) literal over evaluable atoms) must come out with its polarity; unknown groups are assumed
+    satisfiable."""
+    if isinstance(truth, dict):
+        table = truth
+
+        def val0(text):
+            if text in table:
+                return table[text]
+            if text.startswith('not ') and text[4:] in table:
+                return not table[text[4:]]
+            return None
+    else:
+        val0 = truth
+
+    def val(text):
+        v = val0(text)
+        if v is None and text.startswith('not '):
+            w = val0(text[4:])
+            v = None if w is None else (not w)
+        return v
+    for grp in getattr(l, 'groups', ()):
+        forms = grp[2]
+        verdict = None
+        for (t, p) in forms:
+            v = val(t)
+            if v is not None:
+                verdict = (v == p)
+                break
+            if (t.startswith('and(') or t.startswith('or(')) and t.endswith(')'):
+                inner = t[t.index('(') + 1:-1].split(',')
+                vs = [val(x.strip()) for x in inner]
+                if t.startswith('and('):
+                    r = False if any(x is False for x in vs) else (True if all(x is True for x in vs) else None)
+                else:
+                    r = True if any(x is True for x in vs) else (False if all(x is False for x in vs) else None)
+                if r is not None:
+                    verdict = (r == p)
+                    break
+        if verdict is False:
+            return False
+    return True
+
+
+def frame_situation(R, framevar, opcode, fin, extra=None):
+    """Evaluator (atom text -> bool / None) for a frame with the given opcode and FIN bit: atoms over
+    <framevar>.opcode / .fin / the one-line is_* properties and the Opcode constants are computed, anything else
+    (other fields, parser state) is unknown."""
+    import types
+    from ..consteval import class_consts
+    oc = {k: v for k, v in class_consts(R, 'opcode.Opcode').items() if isinstance(v, int)}
+    fr = types.SimpleNamespace(opcode=opcode, fin=fin, is_text=(opcode == oc.get('TEXT', 1)),
+                               is_binary=(opcode == oc.get('BINARY', 2)), is_continuation=(opcode == oc.get('CONTINUATION', 0)),
+                               is_control=(opcode >= 8), is_ping=(opcode == oc.get('PING', 9)), is_pong=(opcode == oc.get('PONG', 10)),
+                               is_close=(opcode == oc.get('CLOSE', 8)))
+    ns = {framevar: fr, 'Opcode': types.SimpleNamespace(**oc), '__builtins__': {}}
+    ns.update(extra or {})
+
+    def ev(text):
+        try:
+            tree = ast.parse(text, mode='eval')
+        except SyntaxError:
+            return None
+        for x in ast.walk(tree):
+            if isinstance(x, (ast.Call, ast.Lambda, ast.Yield, ast.Await)):
+                return None
+            if isinstance(x, ast.Name) and x.id not in ns:
+                return None
+            if isinstance(x, ast.Attribute) and isinstance(x.value, ast.Name) and x.value.id == framevar \
+                    and not hasattr(fr, x.attr):
+                return None
+        try:
+            return bool(eval(compile(tree, '<atom>', 'eval'), ns))
+        except Exception:
+            return None
+    return ev
